@@ -185,12 +185,23 @@ def words_of(body, call_sym, edge_sym=None, stmt_sym=None, start=0, stops=(), ke
     o = Origins(body)
     cache_b = {}
     cache_e = {}
+    # boolean flag temporaries (e.g. `matches!`, `a && b`): locals whose every definition assigns a bool constant.
+    # Their assignments and tests are tracked so that infeasible (assign v, test !v) words can be dropped.
+    flags = set()
+    for l_, ds_ in body.defs().items():
+        if l_ == 0 or len(ds_) < 2 or body.local_ty(l_) != "bool":
+            continue
+        if all(d_[0] == "assign" and d_[3]["k"] == "use" and d_[3]["op"].get("k") == "const" and "int" in d_[3]["op"] for d_ in ds_):
+            flags.add(l_)
 
     def sym_block(bb):
         if bb in cache_b:
             return cache_b[bb]
         out = []
         bl = body.blocks[bb]
+        for s in bl["s"]:
+            if s["k"] == "assign" and isinstance(s["lhs"], int) and s["lhs"] in flags:
+                out.append(("\x00set", s["lhs"], bool(s["rv"]["op"]["int"])))
         if stmt_sym:
             for s in bl["s"]:
                 if s["k"] == "assign":
@@ -213,6 +224,22 @@ def words_of(body, call_sym, edge_sym=None, stmt_sym=None, start=0, stops=(), ke
         if si is not None:
             subj, labels = si
             labs = labels.get(b, set())
+            tpl = op_place(body.blocks[a]["t"]["discr"])
+            fl = None
+            if isinstance(tpl, int):
+                cur = tpl
+                for _ in range(4):
+                    if cur in flags:
+                        fl = cur
+                        break
+                    ds_ = [d_ for d_ in body.defs().get(cur, []) if d_[0] != "partial"]
+                    if len(ds_) == 1 and ds_[0][0] == "assign" and ds_[0][3]["k"] == "use" and isinstance(op_place(ds_[0][3]["op"]), int):
+                        cur = op_place(ds_[0][3]["op"])
+                    else:
+                        break
+            if fl is not None and labs in ({"true"}, {"false"}):
+                cache_e[(a, b)] = [("\x00test", fl, labs == {"true"})]
+                return cache_e[(a, b)]
             if not labs and subj[0] == "discr":
                 # `otherwise` edge of a match that already names every variant: infeasible
                 cache_e[(a, b)] = None
@@ -236,6 +263,22 @@ def words_of(body, call_sym, edge_sym=None, stmt_sym=None, start=0, stops=(), ke
         core = w[:-1]
         if drop_suspend and end[1] == "suspend":
             continue        # prefix of a path: the future is suspended (or dropped) at an await
+        # feasibility of flag temporaries
+        st_ = {}
+        feasible = True
+        clean = []
+        for s_ in core:
+            if isinstance(s_, tuple) and len(s_) == 3 and s_[0] == "\x00set":
+                st_[s_[1]] = s_[2]
+            elif isinstance(s_, tuple) and len(s_) == 3 and s_[0] == "\x00test":
+                if s_[1] in st_ and st_[s_[1]] != s_[2]:
+                    feasible = False
+                    break
+            else:
+                clean.append(s_)
+        if not feasible:
+            continue
+        core = tuple(clean)
         if keep_end:
             res.add(core + (f"<{end[1]}>",))
         else:
